@@ -1,5 +1,6 @@
 import Sentinel.Lemmas.C08Bucket
 import Sentinel.Lemmas.C08Read
+import Sentinel.Lemmas.C08Items
 import Sentinel.Model.Bucket
 /-!
 # C08 — Sliding-window statistics equal the aligned-bucket reference for any history
@@ -98,6 +99,19 @@ theorem ops_viewSum_eq_ref (n L now0 : Nat) (hn : 0 < n) (hL : 0 < L) (h0 : 0 < 
     viewSum (runOps (mk n L now0) ops) Iv now = refW L (addsOf ops) (cbs L now + L - Iv) (cbs L now) :=
   viewSum_of_reach _ n L _ _ now (reach_ops n L now0 hn hL h0 ops mono now hnow hnow0)
     (Nat.lt_of_lt_of_le h0 hnow0) Iv hIv
+
+/-- **previous window, interleaved** (`GetPreviousQPS` reads at `now - Lv`): under the property's side condition
+`Iv + Lv ≤ n·L`, with the view bucket `Lv` a multiple of the array bucket and `Lv < now` (a read landing on time 0 is
+outside the library's domain). -/
+theorem ops_prevSum_eq_ref (n L now0 : Nat) (hn : 0 < n) (hL : 0 < L) (h0 : 0 < now0) (ops : List (Op M))
+    (mono : MonoOps now0 ops) (now : Nat) (hnow : ∀ o ∈ ops, o.time ≤ now) (hnow0 : now0 ≤ now)
+    (Iv Lv : Nat) (hIv : Iv + Lv ≤ n * L) (hLv : Lv < now) (hdiv : L ∣ Lv) :
+    viewSum (runOps (mk n L now0) ops) Iv (now - Lv) =
+      refW L (addsOf ops) (cbs L (now - Lv) + L - Iv) (cbs L (now - Lv)) := by
+  obtain ⟨k, rfl⟩ := hdiv
+  have hcb := cbs_sub_mul L now k hL (Nat.le_of_lt hLv)
+  exact viewSum_at_of_reach _ n L _ _ now (reach_ops n L now0 hn hL h0 ops mono now hnow hnow0)
+    (now - L * k) (by omega) Iv (by omega) (by omega)
 
 /-- **array-level total, interleaved**: refresh at `now`, then the sum of all non-deprecated buckets, equals the
 reference over the last `n` aligned buckets `[cbs now + L − n·L, cbs now]` of the recordings alone. -/
@@ -213,6 +227,62 @@ theorem node_getters_eq_ref (n L now0 : Nat) (hn : 0 < n) (hL : 0 < L) (h0 : 0 <
   intro ev
   exact maxBucket_eq_ref n L now0 hn hL h0 ops mono now hnow hnow0 Iv hIv ev
 
+/-! ### per-second items (`SecondMetricsOnCondition`, a read that does **not** refresh)
+
+`secondItems` and the reference `refItems` (the expression the driver's `spec` mode evaluates over
+`itemStarts L cnt now lo hi`, the last `cnt` aligned bucket starts restricted to the caller's `[lo, hi]`) are both
+lists with one item per distinct second; they are compared as finite maps `second ↦ payload` (`itemAt`), and
+therefore have the same non-zero items — the driver's canonical form (all-zero items dropped, sorted by second). -/
+
+/-- **items, outside the known-finding region** (`_partial`: `now` is not on a bucket boundary, or the current
+bucket has been touched): each reported second's payload equals the sum of the references of its buckets inside the
+array-wide aligned window (the last `n` buckets ending at the current one) that satisfy the caller's predicate;
+no second with a non-zero reference is missing; seconds are distinct. -/
+theorem secondItems_eq_ref_partial (n L now0 : Nat) (hn : 0 < n) (hL : 0 < L) (h0 : 0 < now0) (ops : List (Op Bucket))
+    (mono : MonoOps now0 ops) (now : Nat) (hnow : ∀ o ∈ ops, o.time ≤ now) (hnow0 : now0 ≤ now) (lo hi : Nat)
+    (hreg : now % L ≠ 0 ∨ cbs L now0 = cbs L now ∨ ∃ o ∈ ops, cbs L o.time = cbs L now) :
+    let items := secondItems (runOps (mk n L now0) ops) now lo hi
+    let ref := refItems L (addsOf ops) (itemStarts L n now lo hi)
+    (∀ sec, itemAt items sec = itemAt ref sec) ∧ (∀ p, p.2 ≠ 0 → (p ∈ items ↔ p ∈ ref)) ∧
+    (items.map (·.1)).Nodup ∧ (ref.map (·.1)).Nodup := by
+  intro items ref
+  have r := reach_ops n L now0 hn hL h0 ops mono now hnow hnow0
+  have hreg' : now % L ≠ 0 ∨ cbs L (lastTime now0 ops) = cbs L now := by
+    rcases hreg with h | h
+    · exact Or.inl h
+    · exact Or.inr (touched_last L now0 ops mono now hnow hnow0 h)
+  have heq : ∀ sec, itemAt items sec = itemAt ref sec :=
+    items_of_reach _ n L _ _ now r (Nat.lt_of_lt_of_le h0 hnow0) lo hi hreg'
+  have k1 := secondItems_keys_nodup (runOps (mk n L now0) ops) now lo hi
+  have k2 := refItems_keys_nodup L (addsOf ops) (itemStarts L n now lo hi)
+  exact ⟨heq, fun p hp => items_same_nonzero items ref k1 k2 heq p hp, k1, k2⟩
+
+/-- **items, inside the known-finding region** (`items-boundary-bucket`: `now` exactly on a bucket boundary, nothing
+has touched the current bucket): the same equality holds with the window one bucket longer (`n + 1` buckets) — the
+strict deprecation test `now − start > n·L` admits the bucket that began exactly one interval ago.  Together with
+`secondItems_eq_ref_partial` this determines the items for every reachable array and every read time. -/
+theorem secondItems_boundary_eq (n L now0 : Nat) (hn : 0 < n) (hL : 0 < L) (h0 : 0 < now0) (ops : List (Op Bucket))
+    (mono : MonoOps now0 ops) (now : Nat) (hnow : ∀ o ∈ ops, o.time ≤ now) (hnow0 : now0 ≤ now) (lo hi : Nat)
+    (hb : now % L = 0) (hun : cbs L (lastTime now0 ops) ≠ cbs L now) :
+    let items := secondItems (runOps (mk n L now0) ops) now lo hi
+    let ref := refItems L (addsOf ops) (itemStarts L (n + 1) now lo hi)
+    (∀ sec, itemAt items sec = itemAt ref sec) ∧ (∀ p, p.2 ≠ 0 → (p ∈ items ↔ p ∈ ref)) := by
+  intro items ref
+  have r := reach_ops n L now0 hn hL h0 ops mono now hnow hnow0
+  have heq : ∀ sec, itemAt items sec = itemAt ref sec :=
+    items_of_reach_boundary _ n L _ _ now r (Nat.lt_of_lt_of_le h0 hnow0) lo hi hb hun
+  exact ⟨heq, fun p hp => items_same_nonzero items ref (secondItems_keys_nodup _ now lo hi)
+    (refItems_keys_nodup L _ _) heq p hp⟩
+
+/-- `itemStarts L cnt now lo hi` is exactly the set of aligned bucket starts among the last `cnt` buckets ending at
+the current one that satisfy the caller's predicate, each once -/
+theorem itemStarts_spec (L cnt now lo hi : Nat) (hL : 0 < L) :
+    (itemStarts L cnt now lo hi).Nodup ∧
+    ∀ b, b ∈ itemStarts L cnt now lo hi ↔
+      (L ∣ b ∧ b ≤ cbs L now ∧ cbs L now < b + cnt * L) ∧ lo ≤ b ∧ b ≤ hi := by
+  refine ⟨(nodup_lastStarts L _ _ hL).filter _, fun b => ?_⟩
+  simp only [itemStarts, List.mem_filter, decide_eq_true_eq, mem_lastStarts L cnt _ b hL (cbs_dvd L now)]
+
 /-- the window payload's counters are plain sums, its `mc` a maximum and its `minRt` a minimum capped at 60000:
     what "computed from the multiset of recorded events" means for each getter -/
 theorem ref_append_get (L : Nat) (h : List (Nat × Bucket)) (t : Nat) (x : Bucket) (lo hi : Nat) (ev : Ev) :
@@ -233,6 +303,11 @@ theorem validView_iff_tiles (sc Iv psc pI : Nat) :
 /-! ## non-vacuity: concrete histories meet the hypotheses, and the pinned defect is real -/
 
 example : Mono 100 [(100, evBucket .pass 3), (700, evBucket .pass 2)] := by simp [Mono]
+example : MonoOps 100 [Op.add 100 (evBucket .pass 3), Op.refresh 600, Op.add 700 (evBucket .pass 2)] := by
+  simp [MonoOps, Op.time]
+/-- the hypotheses of `secondItems_boundary_eq` are met by the known-finding replay (read at 638 on a 1 ms grid,
+    last call at 618) -/
+example : 638 % 1 = 0 ∧ cbs 1 (lastTime 1 [Op.add 618 (evBucket .pass 3)]) ≠ cbs 1 638 := by decide
 
 /-- the pre-repair arithmetic (`rangeOfWrap`, uint64 wrap-around) lost the window for `now < Iv - L`:
     array 2×500 created at t=100, view interval 1000 read at t=100 — the wrapped start excludes the
